@@ -50,7 +50,7 @@ Step(e) ==
         ops  == {[op |-> e.ops[i].op, path |-> e.ops[i].path, kind |-> e.ops[i].kind] : i \in 1..Len(e.ops)}
         pred == Apply(s0, e)
         v == IF ~TouchedOK(ops) THEN "effective_host_operation_outside_mounts"
-             ELSE IF e.od0 # e.od1 \/ OutsideOf(s0.fs) # OutsideOf(s1.fs) THEN "outside_tree_changed"
+             ELSE IF e.od0 # e.od1 \/ (Has(e, "post") /\ OutsideOf(s0.fs) # OutsideOf(s1.fs)) THEN "outside_tree_changed"
              ELSE IF ~CwdInsideSt(s1) THEN "cwd_outside_mount"
              ELSE IF InFragment(e) /\ pred.st.fs # s1.fs THEN "files_differ_from_model"
              ELSE IF InFragment(e) /\ NormCwd(pred.st) # NormCwd(s1) THEN "cwd_differs_from_model"
